@@ -385,3 +385,142 @@ func (c *Ctx) sCopy(rule string, fn *ssa.Function, T *types.Named, write bool, e
 	}
 	_ = token.ADD
 }
+
+// fieldOrder lists the fields of T in the order in which fns first touch them in the source, expanding calls of
+// same-package functions (and closures passed to calls) at the position of the call.
+func fieldOrder(fns []*ssa.Function, T *types.Named) []string {
+	st, ok := T.Underlying().(*types.Struct)
+	if !ok {
+		return nil
+	}
+	isT := func(t types.Type) bool {
+		if p, ok := t.(*types.Pointer); ok {
+			t = p.Elem()
+		}
+		n, ok := t.(*types.Named)
+		return ok && n.Obj() == T.Obj()
+	}
+	var out []string
+	have := map[string]bool{}
+	seen := map[*ssa.Function]bool{}
+	var walk func(fn *ssa.Function, depth int)
+	walk = func(fn *ssa.Function, depth int) {
+		if fn == nil || seen[fn] || depth > 4 || len(fn.Blocks) == 0 {
+			return
+		}
+		seen[fn] = true
+		type item struct {
+			pos   token.Pos
+			field string
+			calls []*ssa.Function
+		}
+		var items []item
+		for _, b := range fn.Blocks {
+			for _, in := range b.Instrs {
+				switch x := in.(type) {
+				case *ssa.FieldAddr:
+					if isT(x.X.Type()) && x.Pos().IsValid() {
+						items = append(items, item{pos: x.Pos(), field: st.Field(x.Field).Name()})
+					}
+				case *ssa.Field:
+					if isT(x.X.Type()) && x.Pos().IsValid() {
+						items = append(items, item{pos: x.Pos(), field: st.Field(x.Field).Name()})
+					}
+				case ssa.CallInstruction:
+					var cs []*ssa.Function
+					if g := x.Common().StaticCallee(); g != nil && g.Pkg == fn.Pkg {
+						cs = append(cs, g)
+					}
+					for _, a := range x.Common().Args {
+						if mc, ok := a.(*ssa.MakeClosure); ok {
+							if cf, ok := mc.Fn.(*ssa.Function); ok {
+								cs = append(cs, cf)
+							}
+						}
+					}
+					if len(cs) > 0 && x.Pos().IsValid() {
+						items = append(items, item{pos: x.Pos(), calls: cs})
+					}
+				}
+			}
+		}
+		sort.SliceStable(items, func(i, j int) bool { return items[i].pos < items[j].pos })
+		for _, it := range items {
+			if it.field != "" {
+				if !have[it.field] {
+					have[it.field] = true
+					out = append(out, it.field)
+				}
+				continue
+			}
+			for _, g := range it.calls {
+				walk(g, depth+1)
+			}
+		}
+	}
+	for _, f := range fns {
+		walk(f, 0)
+	}
+	return out
+}
+
+// sOrder: the encoder and the decoder of a struct touch its fields in the same order (same wire position).
+func (c *Ctx) sOrder(rule string, rels []string, tabled map[string]string) {
+	n := 0
+	for _, cp := range c.codecTypes(rels) {
+		tname := cp.T.Obj().Name()
+		rel := strings.TrimPrefix(cp.T.Obj().Pkg().Path(), "github.com/elastos/Elastos.ELA/")
+		s, d := fieldOrder(cp.ser, cp.T), fieldOrder(cp.des, cp.T)
+		inS, inD := map[string]bool{}, map[string]bool{}
+		for _, f := range s {
+			inS[f] = true
+		}
+		for _, f := range d {
+			inD[f] = true
+		}
+		var s2, d2 []string
+		for _, f := range s {
+			if inD[f] {
+				s2 = append(s2, f)
+			}
+		}
+		for _, f := range d {
+			if inS[f] {
+				d2 = append(d2, f)
+			}
+		}
+		key := "order|" + rel + "." + tname
+		if why, ok := tabled[rel+"."+tname]; ok {
+			c.R.Info(rule, key, c.pos(cp.T.Obj().Pos()), why)
+			continue
+		}
+		n++
+		// two fields of the same static type must keep their relative order (a swap of equally typed fields
+		// decodes without error; fields of different types are kept apart by the decoder itself or decoded
+		// through temporaries, which moves their first touch)
+		st := cp.T.Underlying().(*types.Struct)
+		ftype := map[string]string{}
+		for i := 0; i < st.NumFields(); i++ {
+			ftype[st.Field(i).Name()] = st.Field(i).Type().String()
+		}
+		posS, posD := map[string]int{}, map[string]int{}
+		for i, f := range s2 {
+			posS[f] = i
+		}
+		for i, f := range d2 {
+			posD[f] = i
+		}
+		diff := ""
+		for i := 0; i < len(s2) && diff == ""; i++ {
+			for j := i + 1; j < len(s2); j++ {
+				a, b := s2[i], s2[j]
+				if ftype[a] == ftype[b] && posD[a] > posD[b] {
+					diff = fmt.Sprintf("Serialize writes %s before %s, Deserialize reads %s before %s (both %s)", a, b, b, a, ftype[a])
+					break
+				}
+			}
+		}
+		c.R.Check(rule, key, diff == "", c.pos(cp.T.Obj().Pos()), fmt.Sprintf("%s: %s (encoder order %v, decoder order %v)", tname, diff, s2, d2))
+	}
+	c.R.FloorCheck(rule+" codec types", n, 10)
+}
